@@ -23,6 +23,12 @@
 #else
 #define VF_MSV(c)	1
 #endif
+/* -DVF_MS_RANGE keeps the "result is reduced" consequences of the modular callees (x % m < m) */
+#ifdef VF_MS_RANGE
+#define VF_MSR(c)	(c)
+#else
+#define VF_MSR(c)	1
+#endif
 
 /* vocabulary copied from contracts/bn_struct.h, bn_mod.h */
 size_t vf_bn_ix;
@@ -141,6 +147,7 @@ __CPROVER_assigns(VF_BN_FRAME(bn))
 __CPROVER_ensures(VF_ST3(__CPROVER_return_value))
 __CPROVER_ensures(__CPROVER_return_value == 0 ==> VF_BN_WF(*bn))
 __CPROVER_ensures(VF_MSV(__CPROVER_return_value == 0 ==> VF_BN_VAL(*bn) == VF_BN_OLDVAL(bn) % VF_BN_OLDVAL(m)))
+__CPROVER_ensures(VF_MSR(__CPROVER_return_value == 0 ==> VF_BN_VAL(*bn) < VF_BN_OLDVAL(m)))
 ;
 static inline int
 bn_mod_mult(bn_p bn, bn_p n, bn_p m, bn_mod_rd_data_p mod_rd_data)
@@ -148,6 +155,7 @@ __CPROVER_requires(VF_BN_3PRE(bn, n, m))
 __CPROVER_assigns(VF_BN_FRAME(bn))
 __CPROVER_ensures(VF_ST3(__CPROVER_return_value))
 __CPROVER_ensures(__CPROVER_return_value == 0 ==> VF_BN_WF(*bn))
+__CPROVER_ensures(VF_MSR(__CPROVER_return_value == 0 ==> VF_BN_VAL(*bn) < VF_BN_VAL(*m)))
 ;
 static inline int
 bn_mod_mult_digit(bn_p bn, bn_digit_t n, bn_p m, bn_mod_rd_data_p mod_rd_data)
@@ -155,6 +163,7 @@ __CPROVER_requires(VF_BN_BINOP_PRE(bn, m) && bn != m)
 __CPROVER_assigns(VF_BN_FRAME(bn))
 __CPROVER_ensures(VF_ST3(__CPROVER_return_value))
 __CPROVER_ensures(__CPROVER_return_value == 0 ==> VF_BN_WF(*bn))
+__CPROVER_ensures(VF_MSR(__CPROVER_return_value == 0 ==> VF_BN_VAL(*bn) < VF_BN_VAL(*m)))
 ;
 static inline int
 bn_mod_square(bn_p bn, bn_p m, bn_mod_rd_data_p mod_rd_data)
@@ -164,6 +173,7 @@ __CPROVER_ensures(VF_ST3(__CPROVER_return_value))
 __CPROVER_ensures(__CPROVER_return_value == 0 ==> VF_BN_WF(*bn))
 __CPROVER_ensures(VF_MSV(__CPROVER_return_value == 0 ==> (VF_BN_VAL(*m) != 0 &&
     VF_BN_VAL(*bn) == (VF_BN_OLDVAL(bn) * VF_BN_OLDVAL(bn)) % VF_BN_VAL(*m))))
+__CPROVER_ensures(VF_MSR(__CPROVER_return_value == 0 ==> VF_BN_VAL(*bn) < VF_BN_VAL(*m)))
 ;
 static inline int
 bn_mod_exp(bn_p bn, bn_p exp, bn_p m, bn_mod_rd_data_p mod_rd_data)
@@ -172,6 +182,8 @@ __CPROVER_requires(VF_BN_BINOP_PRE(bn, m) && bn != m && VF_BN_IN(exp) &&
 __CPROVER_assigns(VF_BN_FRAME(bn))
 __CPROVER_ensures(VF_ST3(__CPROVER_return_value))
 __CPROVER_ensures(__CPROVER_return_value == 0 ==> VF_BN_WF(*bn))
+__CPROVER_ensures(VF_MSR((__CPROVER_return_value == 0 && VF_BN_OLDVAL(bn) < VF_BN_VAL(*m) && VF_BN_VAL(*m) >= 2) ==>
+    VF_BN_VAL(*bn) < VF_BN_VAL(*m)))
 ;
 static inline int
 bn_mod_inv_bin(bn_p bn, bn_p m, bn_mod_rd_data_p mod_rd_data)
@@ -200,6 +212,7 @@ __CPROVER_ensures((m->digits == 0 || (m->num[0] & 1) == 0) ==> __CPROVER_return_
 __CPROVER_ensures(__CPROVER_return_value == 0 ==> VF_BN_WF(*bn))
 __CPROVER_ensures(VF_MSV(__CPROVER_return_value == 0 ==>
     (VF_BN_VAL(*bn) * VF_BN_VAL(*bn)) % VF_BN_VAL(*m) == VF_BN_OLDVAL(bn) % VF_BN_VAL(*m)))
+__CPROVER_ensures(VF_MSR(__CPROVER_return_value == 0 ==> VF_BN_VAL(*bn) < VF_BN_VAL(*m)))
 ;
 
 #endif /* !VF_REPLAY */
